@@ -69,6 +69,26 @@ Proof. intros. unfold entries. rewrite flat_map_app. reflexivity. Qed.
 Lemma markers_app : forall a b, markers (a ++ b) = markers a ++ markers b.
 Proof. intros. unfold markers. rewrite flat_map_app. reflexivity. Qed.
 
+Lemma pmarkers_app : forall a b, pmarkers (a ++ b) = pmarkers a ++ pmarkers b.
+Proof. intros. unfold pmarkers. rewrite flat_map_app. reflexivity. Qed.
+
+(* records of a replica that never received a snapshot from its leader *)
+Definition local_rec (r : rec) : bool := match r with RSnapIn _ _ _ => false | _ => true end.
+Definition local_recs (l : list rec) : Prop := forallb local_rec l = true.
+
+Lemma local_recs_app : forall a b, local_recs (a ++ b) <-> local_recs a /\ local_recs b.
+Proof. intros. unfold local_recs. rewrite forallb_app, andb_true_iff. reflexivity. Qed.
+
+Lemma local_recs_cons : forall r l, local_recs (r :: l) <-> local_rec r = true /\ local_recs l.
+Proof. intros. unfold local_recs. simpl. rewrite andb_true_iff. reflexivity. Qed.
+
+Lemma pmarkers_local : forall l, local_recs l -> pmarkers l = markers l.
+Proof.
+  induction l as [|r l IH]; intros H; [reflexivity|].
+  apply local_recs_cons in H. destruct H as [Hr Hl].
+  destruct r; simpl in *; try discriminate; unfold pmarkers, markers in *; simpl; rewrite ?IH; auto.
+Qed.
+
 Lemma entries_map_REnt : forall l, entries (map REnt l) = l.
 Proof. induction l; simpl; auto. unfold entries in *. simpl. f_equal. auto. Qed.
 
@@ -94,24 +114,25 @@ Lemma last_commit_app : forall a b,
 Proof. intros. unfold last_commit. rewrite fold_left_app. reflexivity. Qed.
 
 Lemma last_entry_app : forall a b,
-  last_entry (a ++ b) = fold_left (fun acc r => match r with REnt i => i | _ => acc end) b (last_entry a).
+  last_entry (a ++ b) = fold_left (fun acc r => match r with REnt i => i | RSnapIn _ _ i => N.max acc i | _ => acc end) b (last_entry a).
 Proof. intros. unfold last_entry. rewrite fold_left_app. reflexivity. Qed.
 
 Lemma last_nonempty_default : forall (n : N) l d1 d2, last (n :: l) d1 = last (n :: l) d2.
 Proof. intros n l. revert n. induction l; intros; [reflexivity|]. change (last (a :: l) d1 = last (a :: l) d2). apply IHl. Qed.
 
 (* last_entry only depends on the entries *)
-Lemma last_entry_entries : forall l d,
-  fold_left (fun acc r => match r with REnt i => i | _ => acc end) l d = last (entries l) d.
+Lemma last_entry_entries : forall l d, local_recs l ->
+  fold_left (fun acc r => match r with REnt i => i | RSnapIn _ _ i => N.max acc i | _ => acc end) l d = last (entries l) d.
 Proof.
-  induction l; simpl; intros; auto.
-  destruct a; simpl; rewrite IHl; auto.
+  induction l; simpl; intros d Hl; auto.
+  apply local_recs_cons in Hl. destruct Hl as [Ha Hl].
+  destruct a; simpl in Ha; try discriminate; simpl; rewrite IHl by exact Hl; auto.
   unfold entries. simpl. fold (entries l). destruct (entries l) eqn:E; auto.
   apply last_nonempty_default.
 Qed.
 
-Lemma last_entry_eq : forall l, last_entry l = last (entries l) 0.
-Proof. intros. unfold last_entry. apply last_entry_entries. Qed.
+Lemma last_entry_eq : forall l, local_recs l -> last_entry l = last (entries l) 0.
+Proof. intros. unfold last_entry. apply last_entry_entries. exact H. Qed.
 
 Lemma last_range : forall a b d, a < b -> last (range a b) d = b.
 Proof.
@@ -413,15 +434,18 @@ Lemma read_step_ent : forall i st e,
   if i <? e then
     (if Nat.ltb (length (rd_ents st)) (N.to_nat (e - i - 1)) then Err E_OUT_OF_RANGE
      else Ok (mkReadst (firstn (N.to_nat (e - i - 1)) (rd_ents st) ++ [e]) (rd_commit st) (rd_match st)))
-  else Ok st.
+  else Ok (mkReadst [] (rd_commit st) (rd_match st)).
 Proof. reflexivity. Qed.
 Lemma read_step_state : forall i st c, read_step i (Ok st) (RState c) = Ok (mkReadst (rd_ents st) c (rd_match st)).
 Proof. reflexivity. Qed.
 Lemma read_step_snap : forall i st m,
   read_step i (Ok st) (RSnap m) = if m =? i then Ok (mkReadst (rd_ents st) (rd_commit st) true) else Ok st.
 Proof. reflexivity. Qed.
+Lemma read_step_snapin : forall i st v h m,
+  read_step i (Ok st) (RSnapIn v h m) = if m =? i then Ok (mkReadst (rd_ents st) (rd_commit st) true) else Ok st.
+Proof. reflexivity. Qed.
 
-Lemma read_flat : forall R i hi st x,
+Lemma read_flat : forall R i hi st x, local_recs R ->
   entries R = range x hi -> x <= hi ->
   rd_ents st = range i (N.max i x) ->
   exists st', fold_left (read_step i) R (Ok st) = Ok st'
@@ -429,12 +453,13 @@ Lemma read_flat : forall R i hi st x,
     /\ rd_match st' = (rd_match st || memN i (markers R))
     /\ rd_commit st' = fold_left (fun acc r => match r with RState c => c | _ => acc end) R (rd_commit st).
 Proof.
-  induction R as [|r R IH]; intros i hi st x E L Hst.
+  induction R as [|r R IH]; intros i hi st x HL E L Hst.
   - simpl in *. exists st. split; auto. split.
     + assert (x = hi). { destruct (N.eq_dec x hi); auto. exfalso. rewrite range_cons in E by lia. discriminate. }
       subst. exact Hst.
     + split; auto. rewrite orb_false_r. reflexivity.
-  - destruct r as [e|c|m].
+  - apply local_recs_cons in HL. destruct HL as [Hr HL].
+    destruct r as [e|c|m|v h m]; [| | |discriminate Hr].
     + (* entry *)
       unfold entries in E. simpl in E. fold (entries R) in E.
       assert (Hx : x < hi). { destruct (N.ltb_spec x hi); auto. rewrite range_nil in E by lia. discriminate. }
@@ -445,20 +470,20 @@ Proof.
         assert (Hlen : length (rd_ents st) = N.to_nat (e - i - 1)). { rewrite Hst, range_length. lia. }
         rewrite Hlen, Nat.ltb_irrefl.
         rewrite <- Hlen, firstn_all.
-        destruct (IH i hi (mkReadst (rd_ents st ++ [e]) (rd_commit st) (rd_match st)) (x + 1) ER ltac:(lia)) as [st' [F [A [B C]]]].
+        destruct (IH i hi (mkReadst (rd_ents st ++ [e]) (rd_commit st) (rd_match st)) (x + 1) HL ER ltac:(lia)) as [st' [F [A [B C]]]].
         { simpl. rewrite Hst. subst e. replace (N.max i (x + 1)) with (x + 1) by lia. symmetry. apply range_snoc. lia. }
         exists st'. split; [exact F|]. split; [exact A|]. split.
         -- rewrite B. simpl. unfold markers. simpl. reflexivity.
         -- rewrite C. reflexivity.
-      * destruct (IH i hi st (x + 1) ER ltac:(lia)) as [st' [F [A [B C]]]].
-        { rewrite Hst. f_equal. lia. }
+      * destruct (IH i hi (mkReadst [] (rd_commit st) (rd_match st)) (x + 1) HL ER ltac:(lia)) as [st' [F [A [B C]]]].
+        { simpl. rewrite range_nil by lia. reflexivity. }
         exists st'. split; [exact F|]. split; [exact A|]. split.
         -- rewrite B. unfold markers. simpl. reflexivity.
         -- rewrite C. reflexivity.
     + (* hard state *)
       unfold entries in E. simpl in E. fold (entries R) in E.
       cbn [fold_left]. rewrite read_step_state.
-      destruct (IH i hi (mkReadst (rd_ents st) c (rd_match st)) x E L Hst) as [st' [F [A [B C]]]].
+      destruct (IH i hi (mkReadst (rd_ents st) c (rd_match st)) x HL E L Hst) as [st' [F [A [B C]]]].
       exists st'. split; [exact F|]. split; [exact A|]. split.
       * rewrite B. unfold markers. simpl. reflexivity.
       * rewrite C. reflexivity.
@@ -466,12 +491,12 @@ Proof.
       unfold entries in E. simpl in E. fold (entries R) in E.
       cbn [fold_left]. rewrite read_step_snap.
       destruct (m =? i) eqn:Q.
-      * destruct (IH i hi (mkReadst (rd_ents st) (rd_commit st) true) x E L Hst) as [st' [F [A [B C]]]].
+      * destruct (IH i hi (mkReadst (rd_ents st) (rd_commit st) true) x HL E L Hst) as [st' [F [A [B C]]]].
         exists st'. split; [exact F|]. split; [exact A|]. split.
         -- rewrite B. simpl. unfold markers. simpl. fold (markers R). unfold memN. simpl.
            rewrite N.eqb_sym, Q. rewrite orb_true_r. reflexivity.
         -- rewrite C. reflexivity.
-      * destruct (IH i hi st x E L Hst) as [st' [F [A [B C]]]].
+      * destruct (IH i hi st x HL E L Hst) as [st' [F [A [B C]]]].
         exists st'. split; [exact F|]. split; [exact A|]. split.
         -- rewrite B. unfold markers. simpl. fold (markers R). unfold memN. simpl.
            rewrite N.eqb_sym, Q. reflexivity.
@@ -486,15 +511,20 @@ Proof.
 Qed.
 
 (* what a restart reads from a well-shaped WAL at a snapshot index whose marker is there *)
-Lemma read_all_chain : forall ss lo hi i,
+Lemma local_recs_skipn : forall ss p, local_recs (all_recs ss) -> local_recs (all_recs (skipn p ss)).
+Proof.
+  intros ss p H. rewrite <- (firstn_skipn p ss), all_recs_app in H. apply local_recs_app in H. tauto.
+Qed.
+
+Lemma read_all_chain : forall ss lo hi i, local_recs (all_recs ss) ->
   seg_chain lo ss hi -> lo <= i -> sfirst (hd (mkSeg 0 []) ss) <= i ->
   In i (markers (all_recs ss)) ->
   exists cm, read_all ss i = Ok (range i hi, cm).
 Proof.
-  intros ss lo hi i C L F M.
+  intros ss lo hi i HL C L F M.
   destruct (read_chain _ _ _ _ C L F) as [p [lo' [Hc [Hp [He [Hl [Hl2 Hm]]]]]]].
   unfold read_all. rewrite covering_cov, Hc.
-  destruct (read_flat (all_recs (skipn p ss)) i hi (mkReadst [] 0 false) lo' He Hl2) as [st' [Ff [A [B Cm]]]].
+  destruct (read_flat (all_recs (skipn p ss)) i hi (mkReadst [] 0 false) lo' (local_recs_skipn _ _ HL) He Hl2) as [st' [Ff [A [B Cm]]]].
   { simpl. rewrite range_nil by lia. reflexivity. }
   rewrite Ff. rewrite B. simpl.
   assert (HM : memN i (markers (all_recs (skipn p ss))) = true) by (apply memN_In; auto).
@@ -546,7 +576,7 @@ Proof.
 Qed.
 
 (* the restart of a well-shaped world whose newest marker m has its file and checkpoint *)
-Lemma recover_chain : forall ss lo hi sf cks m,
+Lemma recover_chain : forall ss lo hi sf cks m, local_recs (all_recs ss) ->
   seg_chain lo ss hi -> lo = lo_of ss ->
   In m (markers (all_recs ss)) -> (forall i, In i (markers (all_recs ss)) -> i <= m) ->
   (forall i, In i (markers (all_recs ss)) -> i <= last_commit (all_recs ss)) ->
@@ -555,19 +585,19 @@ Lemma recover_chain : forall ss lo hi sf cks m,
   (0 < m -> In m sf /\ lookup m cks = Some (range 0 m)) ->
   recover ss sf cks = Ok (range 0 hi).
 Proof.
-  intros ss lo hi sf cks m C Hlo Hm Hmax Hvalid Hfirst H0 Hfile.
+  intros ss lo hi sf cks m HL C Hlo Hm Hmax Hvalid Hfirst H0 Hfile.
   assert (Llo : lo <= m). { subst lo. unfold lo_of. lia. }
   assert (Lmh : m <= hi) by (eapply seg_chain_markers; eauto).
   unfold recover, choose_snapshot. rewrite (valid_markers_all _ Hvalid).
   destruct (N.eq_dec m 0) as [Hz|Hz].
   - subst m.
     rewrite filter_nil_iff.
-    + rewrite maxl_nil. destruct (read_all_chain _ _ _ 0 C Llo Hfirst Hm) as [cm R]. rewrite R. reflexivity.
+    + rewrite maxl_nil. destruct (read_all_chain _ _ _ 0 HL C Llo Hfirst Hm) as [cm R]. rewrite R. reflexivity.
     + intros x Hx. destruct (memN x (markers (all_recs ss))) eqn:Q; auto.
       apply memN_In in Q. apply Hmax in Q. assert (x = 0) by lia. subst. contradiction.
   - destruct (Hfile ltac:(lia)) as [Hsf Hck].
     rewrite (maxl_is_max _ m).
-    + rewrite Hck. destruct (read_all_chain _ _ _ m C Llo Hfirst Hm) as [cm R]. rewrite R.
+    + rewrite Hck. destruct (read_all_chain _ _ _ m HL C Llo Hfirst Hm) as [cm R]. rewrite R.
       f_equal. symmetry. apply range_app; lia.
     + apply filter_In. split; auto. apply memN_In. exact Hm.
     + intros y Hy. apply filter_In in Hy. destruct Hy as [_ Hy]. apply memN_In in Hy. auto.
@@ -667,9 +697,9 @@ Proof.
 Qed.
 
 (* the last entry of a chain that holds at least one entry, or of an empty log *)
-Lemma last_entry_chain : forall ss lo hi, seg_chain lo ss hi -> (lo < hi \/ hi = 0) -> last_entry (all_recs ss) = hi.
+Lemma last_entry_chain : forall ss lo hi, local_recs (all_recs ss) -> seg_chain lo ss hi -> (lo < hi \/ hi = 0) -> last_entry (all_recs ss) = hi.
 Proof.
-  intros ss lo hi C H. rewrite last_entry_eq, (seg_chain_entries _ _ _ C).
+  intros ss lo hi HL C H. rewrite last_entry_eq by exact HL. rewrite (seg_chain_entries _ _ _ C).
   destruct H as [H|H].
   - apply last_range. exact H.
   - subst. rewrite range_nil by lia. reflexivity.
@@ -690,3 +720,37 @@ Proof. intros. unfold lo_of. rewrite hd_app_tail_first. reflexivity. Qed.
 
 Lemma lo_of_snoc : forall ss x, ss <> [] -> lo_of (ss ++ [x]) = lo_of ss.
 Proof. intros. unfold lo_of. destruct ss; [congruence|reflexivity]. Qed.
+
+(* ---------- records of a replica that never received a snapshot ---------- *)
+
+Lemma local_map_REnt : forall l, local_recs (map REnt l).
+Proof. induction l; [reflexivity|]. apply local_recs_cons. split; [reflexivity | exact IHl]. Qed.
+
+Lemma local_ents_state : forall (l : list N) (hs : bool) (c : N), local_recs (map REnt l ++ (if hs then [RState c] else [])).
+Proof. intros. apply local_recs_app. split; [apply local_map_REnt | destruct hs; reflexivity]. Qed.
+
+Lemma local_states : forall l, forallb is_state l = true -> local_recs l.
+Proof.
+  induction l as [|r l IH]; intros H; [reflexivity|]. simpl in H. apply andb_true_iff in H. destruct H as [Hr Hl].
+  apply local_recs_cons. split; [destruct r; try discriminate; reflexivity | auto].
+Qed.
+
+Lemma local_app_tail : forall ss rs, ss <> [] -> local_recs (all_recs ss) -> local_recs rs -> local_recs (all_recs (app_tail ss rs)).
+Proof. intros. rewrite app_tail_recs by auto. apply local_recs_app. auto. Qed.
+
+Lemma local_firstn : forall n l, local_recs l -> local_recs (firstn n l).
+Proof. intros n l H. rewrite <- (firstn_skipn n l) in H. apply local_recs_app in H. tauto. Qed.
+
+Lemma local_drop_tail : forall ss j, local_recs (all_recs ss) -> local_recs (all_recs (drop_tail ss j)).
+Proof.
+  intros ss j H. destruct ss as [|s0 t]; [exact H|].
+  destruct (exists_last_seg (s0 :: t) ltac:(congruence)) as [pre [sl E]]. rewrite E in *.
+  rewrite drop_tail_snoc. rewrite all_recs_snoc in *. apply local_recs_app in H. destruct H as [H1 H2].
+  apply local_recs_app. split; [exact H1|]. simpl. apply local_firstn. exact H2.
+Qed.
+
+Lemma local_snoc_seg : forall ss sg, local_recs (all_recs ss) -> local_recs (srecs sg) -> local_recs (all_recs (ss ++ [sg])).
+Proof. intros. rewrite all_recs_snoc. apply local_recs_app. auto. Qed.
+
+Lemma local_tl : forall ss, local_recs (all_recs ss) -> local_recs (all_recs (tl ss)).
+Proof. intros [|s0 t] H; [exact H|]. simpl. rewrite all_recs_cons in H. apply local_recs_app in H. tauto. Qed.
